@@ -127,7 +127,7 @@ func nondetSites() (string, error) {
 							return true
 						}
 						if _, isMap := tv.Type.Underlying().(*types.Map); isMap {
-							class := bodyClass(x, following[x])
+							class := bodyClass(x, following[x], info)
 							if strings.HasPrefix(class, "call:") && callCopiesEntry(x, info, fset, decls) {
 								class = "copy-entries"
 							}
@@ -169,7 +169,7 @@ func nondetSites() (string, error) {
 //   mapset           body is one m[k] = v
 //   call:<name>      body is one call statement
 //   other
-func bodyClass(rs *ast.RangeStmt, next ast.Stmt) string {
+func bodyClass(rs *ast.RangeStmt, next ast.Stmt, info *types.Info) string {
 	if len(rs.Body.List) != 1 {
 		return "other"
 	}
@@ -194,6 +194,10 @@ func bodyClass(rs *ast.RangeStmt, next ast.Stmt) string {
 							// a comparison given as a closure that only calls a named function is classified by
 							// that function (its total-order proof is per function); anything else is "inline"
 							cmp := "inline"
+							if len(c2.Args) == 2 && naturalLess(c2.Args[0], c2.Args[1], info) {
+								// sort.Slice(x, func(i, j int) bool { return x[i] < x[j] }) over strings or integers: the natural order
+								return "collect-sorted"
+							}
 							if len(c2.Args) == 2 {
 								if fl, ok := c2.Args[1].(*ast.FuncLit); ok && len(fl.Body.List) == 1 {
 									if rs, ok := fl.Body.List[0].(*ast.ReturnStmt); ok && len(rs.Results) == 1 {
@@ -274,6 +278,46 @@ func callCopiesEntry(rs *ast.RangeStmt, info *types.Info, fset *token.FileSet, d
 	ki, ok1 := ix.Index.(*ast.Ident)
 	vi, ok2 := as.Rhs[0].(*ast.Ident)
 	return ok1 && ok2 && ki.Name == params[0] && vi.Name == params[1]
+}
+
+// naturalLess: cmp is `func(i, j int) bool { return x[i] < x[j] }` for the sorted slice x, and the elements are strings or
+// integers (also through a type parameter constrained to them): `<` is a strict total order there, ties are equal keys
+func naturalLess(x ast.Expr, cmp ast.Expr, info *types.Info) bool {
+	fl, ok := cmp.(*ast.FuncLit)
+	if !ok || len(fl.Body.List) != 1 || fl.Type.Params == nil {
+		return false
+	}
+	var ps []string
+	for _, f := range fl.Type.Params.List {
+		for _, n := range f.Names {
+			ps = append(ps, n.Name)
+		}
+	}
+	rs, ok := fl.Body.List[0].(*ast.ReturnStmt)
+	if !ok || len(rs.Results) != 1 || len(ps) != 2 {
+		return false
+	}
+	be, ok := rs.Results[0].(*ast.BinaryExpr)
+	if !ok || be.Op != token.LSS {
+		return false
+	}
+	l, ok1 := be.X.(*ast.IndexExpr)
+	r, ok2 := be.Y.(*ast.IndexExpr)
+	if !ok1 || !ok2 || exprText(l.X) != exprText(x) || exprText(r.X) != exprText(x) || exprText(l.Index) != ps[0] || exprText(r.Index) != ps[1] {
+		return false
+	}
+	tv, ok := info.Types[be.X]
+	if !ok || tv.Type == nil {
+		return false
+	}
+	switch t := tv.Type.(type) {
+	case *types.TypeParam:
+		c := t.Constraint().String()
+		return c == "~string" || c == "interface{~string}" || c == "string"
+	default:
+		b, ok := tv.Type.Underlying().(*types.Basic)
+		return ok && b.Info()&(types.IsString|types.IsInteger) != 0
+	}
 }
 
 // isRangeVar: e is the key or the value variable of the range statement
